@@ -240,6 +240,12 @@ def _r_off60(t, impl, expected):
     return _re.search(r"[+\-\u2212]\d\d:?\d\d:?60", s) is not None
 
 
+@region("tz-lone-z")
+def _r_tz_lone_z(t, impl, expected):
+    """`TimeZone::try_from_str("Z")`: an explicit special case returns +00:00 for the lone letter."""
+    return t[0] == "p_tz" and len(t) == 2 and t[1].lower() == "5a" and impl == "ok offset +00:00"
+
+
 @region("ixdtf-lenient-zone-name")
 def _r_zone_name(t, impl, expected):
     """A time-zone annotation whose name has an empty component or a component that does not start with a letter,
